@@ -33,7 +33,7 @@ func main() {
 			if strings.HasSuffix(f, "_test.go") {
 				continue
 			}
-			if d == "table" && filepath.Base(f) != "native_backend.go" {
+			if b := filepath.Base(f); d == "table" && b != "native_backend.go" && b != "internal.go" && b != "table.go" {
 				continue
 			}
 			fset := token.NewFileSet()
